@@ -19,6 +19,7 @@ import (
 	"log/slog"
 	"net"
 	"sort"
+	"sync/atomic"
 
 	"github.com/k-sone/critbitgo"
 	"github.com/osrg/gobgp/v4/pkg/config/oc"
@@ -71,6 +72,15 @@ func (r *roaBucket) GetEntries() []*ROA {
 type ROATable struct {
 	trees  map[bgp.Family]*critbitgo.Net
 	logger *slog.Logger
+	// AS of the local speaker: the origin AS of locally originated routes,
+	// whose source (unlike that of routes learned from a peer) does not
+	// carry it
+	localAS atomic.Uint32
+}
+
+// SetLocalAS tells the table the AS of the local speaker.
+func (rt *ROATable) SetLocalAS(as uint32) {
+	rt.localAS.Store(as)
 }
 
 func NewROATable(logger *slog.Logger) *ROATable {
@@ -198,6 +208,10 @@ func (rt *ROATable) Validate(path *Path) *Validation {
 	}
 
 	ownAs := path.OriginInfo().source.LocalAS
+	if ownAs == 0 {
+		// a locally originated route
+		ownAs = rt.localAS.Load()
+	}
 	asPath := path.GetAsPath()
 	var as uint32
 
